@@ -140,6 +140,9 @@ type bandInfo struct {
 	Both    int `json:"blocks_with_both_winners"`
 	Outside int `json:"assets_outside_band"`
 	Near    int `json:"assets_near_edge"`
+	// per band era (1%/0.1%, 10%, 25%): blocks with both winners, and those with an asset outside
+	EraBoth    [3]int `json:"both_per_era"`
+	EraOutside [3]int `json:"outside_per_era"`
 }
 
 // BandEra: 2.0 from the start with the developer-reward and 2.0.2 activations inside the chain.
@@ -154,24 +157,45 @@ func BandEra(start uint32, dev, v202 uint32) Era {
 // equal / inside / at the edge of / outside the band in force.
 func perturbVector(t *rapid.T, opr []uint64, tolBase float64, allowOutside bool, info *bandInfo) []uint64 {
 	out := append([]uint64(nil), opr...)
+	var low []int // assets priced below the 100000 threshold of the first rule set (1% band)
+	for i, v := range opr {
+		if v < 102000 {
+			low = append(low, i)
+		}
+	}
 	n := rapid.IntRange(0, 4).Draw(t, "nperturb")
 	for i := 0; i < n; i++ {
 		k := rapid.IntRange(0, len(out)-1).Draw(t, "passet")
+		if len(low) > 0 && rapid.IntRange(0, 2).Draw(t, "lowAsset") == 0 {
+			k = low[rapid.IntRange(0, len(low)-1).Draw(t, "lowK")]
+		}
 		o := float64(opr[k])
 		tol := tolBase
 		if tolBase == 0.01 && o >= 102000 {
 			tol = 0.001 // first rule set: 0.1% once the SPR value is >= 100000
 		}
-		// choose the SPR value s so that o relates to s*(1±tol) as wanted
+		// choose the SPR value s so that o relates to s*(1±tol) as wanted. "exact" edges are
+		// the two neighbouring integers on either side of the boundary (1 unit apart), the
+		// others sit 0.01% / 0.04% away from it.
 		var s float64
+		exact := rapid.IntRange(0, 2).Draw(t, "edgeDist")
+		eps := []float64{0, 0.0001, 0.0004}[exact]
 		switch rapid.IntRange(0, 8).Draw(t, "pkind") {
 		case 0: // comfortably inside
 			s = o * (1 + tol/3)
 		case 1: // just inside the upper edge: o slightly below s*(1+tol)
-			s = o / (1 + tol) * 1.0004
+			if exact == 0 {
+				s = float64(edgeS(opr[k], tol, true, true))
+			} else {
+				s = o / (1 + tol) * (1 + eps)
+			}
 			info.Near++
 		case 2: // just inside the lower edge
-			s = o / (1 - tol) * 0.9996
+			if exact == 0 {
+				s = float64(edgeS(opr[k], tol, false, true))
+			} else {
+				s = o / (1 - tol) * (1 - eps)
+			}
 			info.Near++
 		case 3, 4, 5, 6:
 			if !allowOutside {
@@ -183,11 +207,19 @@ func perturbVector(t *rapid.T, opr []uint64, tolBase float64, allowOutside bool,
 				s = o / (1 + tol) * 0.98 // o well above the band
 			case 1:
 				s = o / (1 - tol) * 1.02 // o well below the band
-			case 2:
-				s = o / (1 + tol) * 0.9996 // o just above the upper edge
+			case 2: // o just above the upper edge
+				if exact == 0 {
+					s = float64(edgeS(opr[k], tol, true, false))
+				} else {
+					s = o / (1 + tol) * (1 - eps)
+				}
 				info.Near++
-			default:
-				s = o / (1 - tol) * 1.0004 // o just below the lower edge
+			default: // o just below the lower edge
+				if exact == 0 {
+					s = float64(edgeS(opr[k], tol, false, false))
+				} else {
+					s = o / (1 - tol) * (1 + eps)
+				}
 				info.Near++
 			}
 			info.Outside++
@@ -202,14 +234,45 @@ func perturbVector(t *rapid.T, opr []uint64, tolBase float64, allowOutside bool,
 	return out
 }
 
+// edgeS returns the integer SPR value next to the band boundary for OPR value o: with
+// upper, the smallest s whose upper bound s*(1+tol) still reaches o (inside) or the one
+// below it (outside); otherwise the largest s whose lower bound s*(1-tol) is still <= o
+// (inside) or the one above it (outside). Same float64 expressions as the rule's text.
+func edgeS(o uint64, tol float64, upper, inside bool) uint64 {
+	of := float64(o)
+	if upper {
+		s := uint64(of / (1 + tol))
+		if s > 2 {
+			s -= 2
+		}
+		for float64(s)*(1+tol) < of {
+			s++
+		}
+		if !inside && s > 1 {
+			s--
+		}
+		return s
+	}
+	s := uint64(of/(1-tol)) + 2
+	for s > 1 && float64(s)*(1-tol) > of {
+		s--
+	}
+	if !inside {
+		s++
+	}
+	return s
+}
+
 // GenBandScenario: OPR and SPR winners absent / equal / inside / near / outside the band, across the three band eras.
 func GenBandScenario(t *rapid.T, st *Stats) (*Scenario, bandInfo) {
 	var info bandInfo
 	k := rapid.IntRange(5, 8).Draw(t, "k")
 	start := uint32(144*k + rapid.IntRange(1, 100).Draw(t, "off"))
-	dev := uint32(rapid.IntRange(6, 10).Draw(t, "dev"))
+	dev := uint32(rapid.IntRange(8, 13).Draw(t, "dev"))
 	v202 := dev + uint32(rapid.IntRange(3, 7).Draw(t, "v202"))
 	w := NewWorld(t, BandEra(start, dev, v202), 40)
+	// a few assets below / around the 100000 threshold that separates the 1% and 0.1% bands
+	w.Price[3], w.Price[20], w.Price[33], w.Price[47] = 99950, 60000, 100020, 3100
 	miners := w.Actors[:40]
 	// 3 mining blocks so that >= 25 distinct top holders exist
 	for i := 0; i < 3; i++ {
@@ -220,6 +283,17 @@ func GenBandScenario(t *rapid.T, st *Stats) (*Scenario, bandInfo) {
 		h := w.H()
 		b := &Block{}
 		w.JitterPrices(15)
+		// first rule set: the SPR value 100000 separates the 1% from the 0.1% band. Now and
+		// then one asset sits right at it, with the OPR value 0.5% away (inside one, outside the other).
+		thresh := uint64(0)
+		if h < w.Era.V20Dev && rapid.IntRange(0, 3).Draw(t, "thresh") == 0 {
+			thresh = uint64(100000 + rapid.SampledFrom([]int{-2, -1, 0, 1, 50}).Draw(t, "threshS"))
+			if rapid.Bool().Draw(t, "threshUp") {
+				w.Price[33] = thresh + thresh/200
+			} else {
+				w.Price[33] = thresh - thresh/200
+			}
+		}
 		kind := rapid.IntRange(0, 9).Draw(t, "winners")
 		hasOPR := kind != 0
 		hasSPR := kind != 1 && kind != 2
@@ -227,22 +301,34 @@ func GenBandScenario(t *rapid.T, st *Stats) (*Scenario, bandInfo) {
 			b.OPR = w.OPRSet(OPRSetOpts{N: 26, Miners: miners})
 		}
 		if hasSPR && len(w.TopStakers()) >= 25 {
-			tol := 0.01
+			tol, eraIx := 0.01, 0
 			switch {
 			case h >= w.Era.V202:
-				tol = 0.25
+				tol, eraIx = 0.25, 2
 			case h >= w.Era.V20Dev:
-				tol = 0.10
+				tol, eraIx = 0.10, 1
 			}
+			outBefore := info.Outside
 			// Before 2.0.2 an out-of-band block also triggers the registered finding
 			// C11/band-early-return (winners unpaid, entries lost). The recorded rates — C12's
 			// projection — are still as specified (none), so the trigger is KEPT here and the
 			// model re-synchronises after such a block; it is only thinned out, not excluded.
 			allowOutside := h >= w.Era.V202 || !hasOPR || !Open("C11/band-early-return") || rapid.IntRange(0, 2).Draw(t, "keepTrigger") == 0
 			vec := perturbVector(t, vectorFor(5, w.Price), tol, allowOutside, &info)
+			if thresh != 0 && (allowOutside || thresh < 100000) {
+				vec[33] = thresh
+				info.Near++
+				if thresh >= 100000 {
+					info.Outside++
+				}
+			}
 			b.SPR = w.SPRSet(25+rapid.IntRange(0, 1).Draw(t, "sprExtra"), vec)
 			if hasOPR {
 				info.Both++
+				info.EraBoth[eraIx]++
+				if info.Outside > outBefore {
+					info.EraOutside[eraIx]++
+				}
 			}
 		}
 		if Open("C08/snapshot-norates") && h < w.Era.V202 && h%144 == 0 && !hasOPR && len(b.SPR) == 0 {
